@@ -30,6 +30,7 @@ MAPPINGS = {
     'empty': {},
     'zeros': {0: 0, 1: 0.0, 3: 7},     # falsy values are values, only None entries are dropped
     'bigints': {0: 2 ** 53 + 1, 2: -(2 ** 62) - 3},    # integers that no double holds exactly
+    'quoting': {0: 'see "fig 2"', 1: 'a,b', 3: "it's"},      # strings the table writer has to quote
 }
 FIELDS = ['group', 'q']
 
@@ -52,6 +53,12 @@ def foreign_body(name, kind):
         txt = dl.join(['cluster_id', f1, f2]) + '\n' + dl.join(['0', '', 'hello']) + '\n' + \
             dl.join(['2', '1.5', 'world']) + '\n'
         return txt.encode(), {f1: {2: 1.5}, f2: {0: 'hello', 2: 'world'}}
+    if kind == 'same_field':
+        # a foreign CSV that has a column named like a field saved through the model: the saved
+        # mapping is what a reload shows for that field, the other column is shown next to it
+        txt = dl.join(['cluster_id', FIELDS[0], f2]) + '\n' + dl.join(['0', 'csvA', 'hello']) + '\n' + \
+            dl.join(['2', 'csvB', 'world']) + '\n'
+        return txt.encode(), {FIELDS[0]: {0: 'csvA', 2: 'csvB'}, f2: {0: 'hello', 2: 'world'}}
     if kind == 'header':
         return (dl.join(['cluster_id', f1]) + '\n').encode(), None
     if kind == 'empty':
@@ -70,6 +77,8 @@ def alphabet(tier):
     evs = [('save_clusters', 'merge'), ('save_clusters', 'split'), ('save_clusters', 'identity')]
     for f in FIELDS:
         for mname in MAPPINGS:
+            if tier != 'thorough' and f == FIELDS[0] and mname not in ('labels', 'ints_none', 'empty'):
+                continue       # quick: the value alphabet is complete on the second field only
             evs.append(('save_meta', f, mname))
     kinds = ['valid', 'valid_gap_first', 'header', 'empty', 'ragged', 'noid', 'badutf8'] \
         if tier == 'thorough' else ['valid', 'valid_gap_first', 'empty', 'badutf8', 'ragged']
@@ -80,6 +89,7 @@ def alphabet(tier):
             evs.append(('foreign', n, k))
     for n in SEPARATOR_NAMES:
         evs.append(('foreign', n, 'valid'))
+    evs.append(('foreign', 'extra.csv', 'same_field'))
     evs += [('subset', 0), ('subset', 1), ('close',), ('reload',)]
     return evs
 
@@ -210,7 +220,12 @@ class World(object):
                 bad.append(('spike_samples', 'changed', describe(tr['spike_samples']),
                             describe(np.asarray(m.spike_samples))))
             md = m.metadata
+            foreign_fields = set(f for n, fs in ref.foreign.items() if fs and n != 'cluster_info.tsv' for f in fs)
             for field, mp in ref.fields.items():
+                if not mp and field in foreign_fields:
+                    # an empty saved mapping and another file with a column of the same name: the
+                    # statement does not say which of the two "no values" / "other file" is shown
+                    continue
                 got = dict(md.get(field, {}))
                 if not _same_mapping(got, mp):
                     bad.append(('metadata', 'saved-field-differs', {field: mp}, {field: got}))
@@ -218,6 +233,8 @@ class World(object):
                 if fields is None or name == 'cluster_info.tsv':
                     continue
                 for field, mp in fields.items():
+                    if field in ref.fields:
+                        continue       # a field saved through the model: its last saved mapping wins
                     got = dict(md.get(field, {}))
                     if not _same_mapping(got, mp):
                         bad.append(('metadata', 'foreign-field-differs', {field: mp}, {field: got}))
